@@ -8,6 +8,7 @@ import concurrent.futures as cf
 sys.path.insert(0, '/verif')
 
 PROPS = ['C%02d' % i for i in range(1, 21)]
+UNCOVERED = False
 SKIP_FILES = {'crysp/utils/freq1.py', 'crysp/utils/freq2.py', 'crysp/utils/freq3.py', 'crysp/utils/oldies.py', 'crysp/utils/words.py',
               'crysp/__init__.py', 'crysp/utils/__init__.py', 'crysp/utils/sbox.py'}
 
@@ -95,8 +96,17 @@ def enumerate_mutants(files, cov):
                 for s in n.body:
                     if isinstance(s, ast.FunctionDef):
                         quals.append((n.name + '.' + s.name, s))
+        seen_q = {}
+        quals2 = []
         for q, f in quals:
-            if q not in cov.get(rel, ()):
+            k_ = seen_q.get(q, 0)
+            seen_q[q] = k_ + 1
+            quals2.append((q if not k_ else '%s@%d' % (q, k_), f))      # a property's setter is the 2nd definition of the name
+        for q, f in quals2:
+            if UNCOVERED:
+                if q.split('@')[0] in cov.get(rel, ()):
+                    continue
+            elif q.split('@')[0] not in cov.get(rel, ()):
                 continue
             for k, (kind, node) in enumerate(sites(f)):
                 muts.append((rel, q, k, kind))
@@ -109,7 +119,13 @@ def make(rel, q, k):
     for n in tree.body:
         cands = [(n.name, n)] if isinstance(n, ast.FunctionDef) else \
             [(n.name + '.' + s.name, s) for s in n.body if isinstance(s, ast.FunctionDef)] if isinstance(n, ast.ClassDef) else []
+        occ_ = {}
+        cands2 = []
         for qq, f in cands:
+            k_ = occ_.get(qq, 0)
+            occ_[qq] = k_ + 1
+            cands2.append((qq if not k_ else '%s@%d' % (qq, k_), f))
+        for qq, f in cands2:
             if qq == q:
                 kind, node = sites(f)[k]
                 line = getattr(node, 'lineno', None) if not isinstance(node, tuple) else getattr(getattr(node[0], node[1])[node[2]], 'lineno', None)
@@ -163,7 +179,9 @@ if __name__ == '__main__':
     ap.add_argument('--seed', type=int, default=1)
     ap.add_argument('--jobs', type=int, default=14)
     ap.add_argument('--out', default='/tmp/mass_mutants.txt')
+    ap.add_argument('--uncovered', action='store_true', help='mutate the functions of the files that NO evidence file lists (property setters, ...)')
     a = ap.parse_args()
+    UNCOVERED = a.uncovered
     cov = covered_functions()
     files = [f for f in (a.files.split(',') if a.files else sorted(cov)) if f and f not in SKIP_FILES and os.path.exists('/repo/' + f)]
     muts = enumerate_mutants(files, cov)
